@@ -221,6 +221,25 @@ ADDED3 = {
 for _k, _v in ADDED3.items():
     ADDED[_k] = (ADDED.get(_k, "") + " " + _v).strip()
 
+ADDED4 = {
+    "C01": "Hunting round: timezone setters clear the parsed '-0000' flag; a None message is serialised without the separator (known finding).",
+    "C02": "Hunting round: thin-pack completion in pack order, objects listed twice written once.",
+    "C03": "Hunting round: copy offsets of 2^32 and more never encoded (known finding, both twins); the empty-payload guard decided per object type.",
+    "C04": "Hunting round: a truncated loose object is an error (zlib eof tested before the data is returned).",
+    "C06": "Hunting round: per-ref exceptions of the ref store become that ref's status; the in-process push checks the new value is present.",
+    "C07": "Hunting round: locked_index releases on a failed enter, commits inside the aborting try and re-raises.",
+    "C08": "Hunting round: locked_ref commits only when something was written; the 'is it packed' decision of a deletion under packed-refs.lock (known finding).",
+    "C11": "Hunting round: cache times masked to 32 bits; the extension loop never un-reads checksummed bytes.",
+    "C13": "Hunting round: independent() removes duplicates first; update_shallow keeps file and grafts together; octopus base maximal; excluded tags peeled.",
+    "C14": "Hunting round: generated commit graph closed under parents; MIDX large-offset escape only with LOFF; empty packed-refs reads as none; pack_refs never packs symrefs.",
+    "C16": "Hunting round: add_if_new looks the resolved name up; every ref-file write removes empty directories in the way and creates parents.",
+    "C17": "Hunting round: empty-parent removal bounded by containment; path-restricted checkout refuses bare repositories; submodule paths lstat-checked.",
+    "C19": "Hunting round: length prefix bounded above where parsed; empty capability list; a status report cut inside a pkt-line is an error.",
+    "C20": "Hunting round: has_section folds case like its siblings; the value reader strips only git's whitespace.",
+}
+for _k, _v in ADDED4.items():
+    ADDED[_k] = (ADDED.get(_k, "") + " " + _v).strip()
+
 NOT_APPLICABLE = {
     "C12": "Inverse-ness of build/flatten and soundness/completeness of a tree diff are relations over runtime tree "
            "values; the only clause visible in the code's shape (entries always serialised through the one canonical "
